@@ -446,7 +446,8 @@ Definition end_block (s : chain) : chain * out :=
       end
   end.
 
-(* BeginBlock: new header, mint (x/mint/abci.go), authz pruning of grants with expiration <= block time *)
+(* BeginBlock: new header, mint (x/mint/abci.go), authz pruning of grants with expiration < block time (InclusiveEndBytes of the time prefix
+   does not reach keys that extend it, so a grant expiring exactly now survives and is still valid) *)
 Definition begin_block_op (s : chain) (t : Z) : chain * out :=
   let h := c_height s + 1 in
   match begin_block (c_mparams s) (c_minter s) (c_supply s) h with
@@ -455,7 +456,7 @@ Definition begin_block_op (s : chain) (t : Z) : chain * out :=
       ({| c_bank := badd (c_bank s) FEECOLL minted; c_now := t; c_height := h; c_prm := c_prm s;
           c_vault := c_vault s; c_ms := c_ms s; c_mqueue := c_mqueue s; c_bqueue := c_bqueue s;
           c_betcnt := c_betcnt s; c_uid2id := c_uid2id s; c_settledix := c_settledix s;
-          c_grants := filter (fun g => (g_exp g <? 0) || (t <? g_exp g)) (c_grants s);
+          c_grants := filter (fun g => (g_exp g <? 0) || (t <=? g_exp g)) (c_grants s);
           c_mparams := c_mparams s; c_minter := m; c_supply := c_supply s + minted; c_halted := false |}, Ok)
   end.
 
